@@ -480,6 +480,7 @@ func scStoreRace(r *Run) {
 		tasks = append(tasks, r.Go(fmt.Sprintf("reader%d", i)))
 	}
 	fin := r.Go("finaliser")
+	defer r.StopTasks()
 	type bad struct{ msg string }
 	for fi := 0; fi < nFiles && !r.Failed(); fi++ {
 		f, err := fac.NewFile(fmt.Sprintf("r%d.bin", fi))
